@@ -53,6 +53,8 @@ type PropSpec struct {
 }
 
 type Runner struct {
+	genInvs   int   // invocations of the random generation phase in the current run, and the time they took
+	genNs     int64 // (what Check's early-exit estimate near a test deadline is based on)
 	rec       *Recorder
 	genv      *GenEnv
 	mu        sync.Mutex
@@ -178,6 +180,15 @@ func (r *Runner) Prop(p *PropSpec) func(*rapid.T) {
 		r.resample(prevCtxs, "after")
 		InvStart()
 		defer InvStop()
+		if ph, _ := CurPhase.Load().(string); ph == "gen" {
+			t0 := time.Now()
+			defer func() {
+				r.mu.Lock()
+				r.genInvs++
+				r.genNs += int64(time.Since(t0))
+				r.mu.Unlock()
+			}()
+		}
 		r.rec.Emit("inv.begin", F{"inv": in.id})
 		r.mu.Lock()
 		ff := r.firstFail
